@@ -3,11 +3,15 @@ import Verif.Model.SignNames
   Line-protocol driver for C03 (X.509 token signing: names, key, provisioner extension).
 
   One sign request per line, `key=value` fields separated by single spaces:
-    prov=jwk|x5c|oidc|oidcadm  tpl=0|1  dis=0|1  gen=x<hex DER>
-    sub=<san>  sans=<san>,…|-  cnf=-|!|0|1  oem=<san>|-  oiss=<san>|-
+    prov=jwk|x5c|oidc|oidcadm|nebula|k8ssa  tpl=0|1  gen=x<hex DER>
+    adr= aex= aae=   authority-level claims disableRenewal / disableSmallstepExtensions / allowRenewalAfterExpiry (-|0|1)
+    pdr= pex= pae=   the provisioner's own claims
+    sub=<san>  sans=<san>,…|-  cnf=-|!|0|1  oem=<san>|-  oiss=<san>|-  nbn=<san>|-  nbi=x<ip>,…|-   (Nebula certificate name / addresses)
     sig=0|1  ccn=x<hex>  cdns= cip= cem= curi=   (lists of x<hex>, `-` when empty)
     key=<n>  keyok=0|1  cext=<ext>,…|-  ud=0|1  uext=<ext>,…|-  uoth=<n>  enct=0|1  encc=0|1
   san = `d|i|e|u` `:` x<raw> `:` x<canonical>;  ext = `<oid number>:x<value>` (oid 0 = provisioner OID)
+  `src fn=signX509|jwk|x5c|oidc|nebula|k8ssa` prints the source-order tables of the model (compared with what
+  harness/cmd/c03_src derives from the Go source).
   Output: refuse:<status> | error | issue cn=… dns=… ip=… em=… uri=… key=<n> ext=… | parse-error
 -/
 open Verif Verif.SignNames
@@ -19,6 +23,10 @@ def str? (t : String) : Option Str :=
 
 def bool? (t : String) : Option Bool :=
   if t = "1" then some true else if t = "0" then some false else none
+
+/-- a boolean claim: `-` unset, `0`, `1` -/
+def tri? (t : String) : Option (Option Bool) :=
+  if t = "-" then some none else (bool? t).map some
 
 def list? {α : Type} (f : String → Option α) (t : String) : Option (List α) :=
   if t = "-" then some [] else (t.splitOn ",").mapM f
@@ -48,7 +56,8 @@ def cnf? (t : String) : Option Cnf :=
 def prov? (t : String) : Option Prov :=
   match t with
   | "jwk" => some .jwk | "x5c" => some .x5c
-  | "oidc" => some (.oidc false) | "oidcadm" => some (.oidc true) | _ => none
+  | "oidc" => some (.oidc false) | "oidcadm" => some (.oidc true)
+  | "nebula" => some .nebula | "k8ssa" => some .k8ssa | _ => none
 
 def lookup (kv : List (String × String)) (k : String) : Option String :=
   (kv.find? (·.1 = k)).map (·.2)
@@ -60,7 +69,20 @@ def listS (l : List String) : String := if l.isEmpty then "-" else ",".intercala
 def certS (c : Cert) : String :=
   s!"issue cn={xs c.cn} dns={listS (c.dns.map xs)} ip={listS (c.ips.map xs)} em={listS (c.emails.map xs)} uri={listS (c.uris.map xs)} key={c.key} ext={listS (c.exts.map fun e => s!"{e.oid}:{xs e.val}")}"
 
+def evalSrc (fn : String) : Option String :=
+  match fn with
+  | "signX509" => some (" ".intercalate (signX509Source.map Tok.str))
+  | "jwk" => some (" ".intercalate ((optionSource .jwk).map Opt.str))
+  | "x5c" => some (" ".intercalate ((optionSource .x5c).map Opt.str))
+  | "oidc" => some (" ".intercalate ((optionSource (.oidc false)).map Opt.str))
+  | "nebula" => some (" ".intercalate ((optionSource .nebula).map Opt.str))
+  | "k8ssa" => some (" ".intercalate ((optionSource .k8ssa).map Opt.str))
+  | _ => none
+
 def eval (line : String) : Option String := do
+  if (fields line).head? = some "src" then
+    let fn ← ((fields line).filterMap fun f => match f.splitOn "=" with | ["fn", v] => some v | _ => none).head?
+    return (← evalSrc fn)
   let kv := (fields line).filterMap fun f =>
     match f.splitOn "=" with
     | [k, v] => some (k, v)
@@ -68,10 +90,13 @@ def eval (line : String) : Option String := do
   let get := fun k => lookup kv k
   let cfg : Cfg := {
     prov := (← prov? (← get "prov")), hasTemplate := (← bool? (← get "tpl")),
-    extDisabled := (← bool? (← get "dis")), gen := ⟨0, (← str? (← get "gen"))⟩ }
+    authClaims := ⟨(← tri? (← get "adr")), (← tri? (← get "aex")), (← tri? (← get "aae"))⟩,
+    provClaims := ⟨(← tri? (← get "pdr")), (← tri? (← get "pex")), (← tri? (← get "pae"))⟩,
+    gen := ⟨0, (← str? (← get "gen"))⟩ }
   let tok : Token := {
     sub := (← san? (← get "sub")), sans := (← list? san? (← get "sans")),
-    cnf := (← cnf? (← get "cnf")), email := (← optSan? (← get "oem")), issUri := (← optSan? (← get "oiss")) }
+    cnf := (← cnf? (← get "cnf")), email := (← optSan? (← get "oem")), issUri := (← optSan? (← get "oiss")),
+    nebName := (← optSan? (← get "nbn")), nebIPs := (← list? str? (← get "nbi")) }
   let csr : CSR := {
     sigOK := (← bool? (← get "sig")), cn := (← str? (← get "ccn")),
     dns := (← list? str? (← get "cdns")), ips := (← list? str? (← get "cip")),
